@@ -258,7 +258,7 @@ def intel(sp, style=0):
 
 ATT_SUFFIX = {8: "b", 16: "w", 32: "l"}
 ATT_OK = set(ALU2 + ["test", "mov", "xchg", "xadd", "cmpxchg", "lea", "push", "pop", "bt", "bts", "btr", "btc", "bsf", "bsr", "imul", "ret", "int", "bswap"] + UNARY + SHIFT +
-             ["shld", "shrd", "movzx", "movsx", "jmp", "call"] + ["set" + c for c in CCS] + ["cmov" + c for c in CCS] + ["j" + c for c in CCS] + NOOP +
+             ["shld", "shrd", "movzx", "movsx", "jmp", "call", "enter"] + ["set" + c for c in CCS] + ["cmov" + c for c in CCS] + ["j" + c for c in CCS] + NOOP +
              ["movd", "movq", "pxor", "paddd", "movaps", "movups", "addps", "addss", "addsd", "xorps", "pshufd", "movdqa", "movss", "movsd", "cvtsi2sd", "cvttsd2si"])
 
 
@@ -307,6 +307,9 @@ def att(sp):
         name = mn + ATT_SUFFIX[ww]
     elif mn in ("jmp", "call") and ops and ops[0][0] != "rel":
         return "%s *%s" % (mn, op_att(ops[0]))
+    elif mn == "enter":
+        # two immediates: AT&T keeps the Intel order (GNU as: enter $8, $1 = c8 08 00 01)
+        return "enter " + ", ".join(op_att(o) for o in ops)
     elif mn == "lea":
         name = "leal" if ops[0][1] in R32 else "leaw"
     return (name + " " + ", ".join(op_att(o) for o in reversed(ops))).strip()
